@@ -212,9 +212,54 @@ def linked_tally(ctx):
             ctx.failures.append(Failure("C20/adjacent-bases", "adjacent_bases of the linked adapter's 3' part differ from the tally", inp, gadj, adj))
 
 
+def pair_adapters_tally(ctx):
+    """--pair-adapters with a combinatorial dual-index layout (every R1 adapter and every R2 adapter occurs in two pairs): the statistics of the j-th
+    R1 adapter and of the j-th R2 adapter count exactly the pairs to which adapter pair j was applied (by construction: exact copies, -O 8)"""
+    rng = ctx.rng
+    for _ in range(ctx.scale(5, 50)):
+        A = [pipe.rs(rng, 12) for _ in range(2)]
+        B = [pipe.rs(rng, 12) for _ in range(2)]
+        ranks = [(0, 0), (0, 1), (1, 0), (1, 1)]
+        rng.shuffle(ranks)
+        argv = ["--no-index", "-O", "8", "--pair-adapters"]
+        for j, (x, y) in enumerate(ranks):
+            argv += ["-a", f"p{j}={A[x]}"]
+        for j, (x, y) in enumerate(ranks):
+            argv += ["-A", f"q{j}={B[y]}"]
+        argv += ["-o", "{dir}/o1.fastq", "-p", "{dir}/o2.fastq"]
+        r1, r2, count = [], [], [0, 0, 0, 0]
+        for i in range(rng.randint(30, 60)):
+            b1, b2 = pipe.rs(rng, rng.randint(10, 20), "AC"), pipe.rs(rng, rng.randint(10, 20), "AC")
+            if rng.random() < 0.85:
+                j = rng.randrange(4)
+                x, y = ranks[j]
+                b1, b2 = b1 + A[x], b2 + B[y]
+                count[j] += 1
+            r1.append((f"r{i}", b1, "I" * len(b1)))
+            r2.append((f"r{i}", b2, "5" * len(b2)))
+        size = sum(len(n) + 2 * len(s_) + 6 for n, s_, _ in r1)
+        case = dict(argv=argv, paired=True, reads1=r1, reads2=r2, with_qual=True, interleaved_in=False)
+        if rng.random() < 0.5:
+            case["cores"], case["buffer_size"] = rng.choice([2, 3]), max(300, size // 4)
+        res2, real2 = pipe.run_real(case, want_json=True)
+        ctx.evaluations += 1
+        ctx.count("pair-adapters-tally-run")
+        if res2.json is None or "error" in real2:
+            continue
+        inp = dict(case_input(case), cores=case.get("cores"), pair_adapters=True)
+        got1 = [a["total_matches"] for a in res2.json["adapters_read1"]]
+        got2 = [a["total_matches"] for a in res2.json["adapters_read2"]]
+        if got1 != count or got2 != count:
+            ctx.failures.append(Failure("C20/total-matches", "with --pair-adapters the statistics of the j-th R1 / R2 adapter differ from the number of pairs to which adapter "
+                                        "pair j was applied", inp, dict(read1=got1, read2=got2), count))
+        else:
+            ctx.nontriv(("pair-adapters-tally", tuple(argv)))
+
+
 def run(ctx):
     error_ranges_cases(ctx)
     linked_tally(ctx)
+    pair_adapters_tally(ctx)
     pipeprop.run(ctx, "C20", FOCUS, tally_oracle, 300, 5000,
                  "function level: ErrorRanges for all lengths 1..40(64) x 14 rates; pipeline level: random command lines with adapters, --info-file, --times, "
                  "actions, --revcomp; non-trivial = distinct case with at least one applied match / a range list with more than one entry",
